@@ -135,7 +135,8 @@ Lemma search_loop_S f h v slm vol parent pi slcount saved :
             else if check_permission m OpenLookup (v_user v)
                  then search_loop f h v slm vol c pi1 slcount saved
                  else ret EPermDenied
-        | Some (NFile _ _ _ _) => if last then ret EFileExists else ret ENotADirectory
+        | Some (NFile _ _ _ _) =>
+            if last then ret EFileExists else ret (match v_os v with Windows => ENoSuchDir | Linux => ENotADirectory end)
         | Some (NSym link _) =>
             let slcount' := S slcount in
             if last && slmode_eqb slm SlLstat then ret EFileExists
